@@ -23,6 +23,35 @@ theorem fill_exact (inside : Nat → Bool) (B : List Nat) (hasc : StrictAsc B) (
     memInt t (fill inside B) ↔ inside t = true :=
   Pm.Region.fill_exact inside B B hasc (fun _ h => h) sep (fun _ _ _ _ => trivial) first hf (fun _ h _ => h) t ht hlt hub
 
+/-- **the fill never leaves the span of the boundary set**: a filled tile lies strictly between two
+    boundary IDs.  (So a boundary tile in the wrong place drags the fill with it — D26 — and a boundary
+    set inside one zoom block keeps the whole selection inside that block.) -/
+theorem fill_between_boundaries (inside : Nat → Bool) :
+    ∀ (B : List Nat) (t : Nat), memInt t (fill inside B) → ∃ a ∈ B, ∃ b ∈ B, a < t ∧ t < b
+  | [], t, h => by simp [fill, memInt] at h
+  | [_], t, h => by simp [fill, memInt] at h
+  | a :: b :: rest, t, h => by
+    unfold fill at h
+    obtain ⟨p, hp, h1, h2⟩ := h
+    rcases List.mem_append.mp hp with hp | hp
+    · by_cases hc : a + 1 < b ∧ inside (a + 1) = true
+      · rw [if_pos hc] at hp
+        simp at hp
+        subst hp
+        exact ⟨a, by simp, b, by simp, by simp at h1; omega, h2⟩
+      · rw [if_neg hc] at hp
+        simp at hp
+    · obtain ⟨x, hx, y, hy, hlt⟩ := fill_between_boundaries inside (b :: rest) t ⟨p, hp, h1, h2⟩
+      exact ⟨x, by simp [List.mem_cons] at hx ⊢; exact Or.inr hx, y, by simp [List.mem_cons] at hy ⊢; exact Or.inr hy, hlt⟩
+
+/-- corollary: a boundary set inside `[lo, hi)` (one zoom block, with the D26 guard) keeps every filled tile inside it -/
+theorem fill_stays_in_block (inside : Nat → Bool) (B : List Nat) (lo hi : Nat)
+    (hB : ∀ x ∈ B, lo ≤ x ∧ x < hi) (t : Nat) (h : memInt t (fill inside B)) : lo < t ∧ t < hi := by
+  obtain ⟨a, ha, b, hb, h1, h2⟩ := fill_between_boundaries inside B t h
+  have := hB a ha
+  have := hB b hb
+  omega
+
 /-- the geometric hypothesis is discharged by C01 where it is about the numbering: consecutive
     IDs of one zoom are edge-adjacent -/
 theorem consecutive_ids_adjacent (z i : Nat) (hz : z ≤ 31) (h1 : Hilbert.base z ≤ i) (h2 : i + 1 < Hilbert.base (z+1)) :
